@@ -837,6 +837,22 @@ class _AdaptiveStepRK(_RungeKuttaBase):
         if not hasattr(self, "_err_exp") or self._err_exp == 0:
             self._err_exp = 1.0 / (self._p)
 
+    def _require_increasing_grid(self, t_vals: np.ndarray) -> None:
+        """Reject strictly decreasing time grids.
+
+        The adaptive step loops only advance towards larger times; on a
+        decreasing grid they would not take a single step and the dense
+        output would return the initial state for every requested time.
+        Integrate the time-reversed system on an increasing grid instead
+        (see :class:`~hiten.algorithms.dynamics.base._DirectedSystem`).
+        """
+        if t_vals[-1] < t_vals[0]:
+            raise ValueError(
+                f"{self.name} requires an increasing time grid; got a decreasing one "
+                f"(t[0]={t_vals[0]}, t[-1]={t_vals[-1]}). Use a fixed-step integrator or "
+                "wrap the system in a backward _DirectedSystem."
+            )
+
 
 @numba.njit(cache=False, fastmath=FASTMATH)
 def rk45_step_jit_kernel(f, t, y, h, A, B_HIGH, C, E):
@@ -1164,6 +1180,7 @@ class _RK45(_AdaptiveStepRK):
             available. Units follow the provided ``system``.
         """
         self.validate_inputs(system, y0, t_vals)
+        self._require_increasing_grid(t_vals)
         is_hamiltonian = isinstance(system, _HamiltonianSystemProtocol)
         if not is_hamiltonian:
             f = self._build_rhs_wrapper(system)
@@ -2247,6 +2264,7 @@ class _DOP853(_AdaptiveStepRK):
             available. Units follow the provided ``system``.
         """
         self.validate_inputs(system, y0, t_vals)
+        self._require_increasing_grid(t_vals)
         # Common zero-span short-circuit
         constant_sol = self._maybe_constant_solution(system, y0, t_vals)
         if constant_sol is not None:
